@@ -924,30 +924,6 @@ func streamEncRTU(seed uint64, thorough bool) {
 		tid := r.u16()
 		emit("resp_bytes", L(I(fr), p.proj(), I(int(tid))), guard(func() V { return B(respBytes(fr, tid, p)) }))
 	}
-	// response values whose count field disagrees with the payload they carry (shorter: the encoder
-	// zero-pads, longer: it truncates) and FC17 values with and without additional data: the trailer
-	// must be the CRC of the bytes actually emitted
-	for _, fc := range []uint8{1, 2, 3, 4, 23} {
-		for blen := 0; blen <= 250; blen++ {
-			if !thorough && blen > 12 && blen%17 != 0 {
-				continue
-			}
-			for _, dl := range []int{blen, blen - 1, blen - 2, blen + 1, blen + 3, 0} {
-				if dl < 0 || dl > 252 {
-					continue
-				}
-				if (fc == 1 || fc == 2) && dl != blen {
-					continue // FC1/FC2 derive the count from the payload
-				}
-				p := respCase{fc: fc, u: r.u8(), blen: uint8(blen), data: r.bytes(dl)}
-				for fr := 0; fr < 2; fr++ {
-					tid := r.u16()
-					fr := fr
-					emit("resp_bytes", L(I(fr), p.proj(), I(int(tid))), guard(func() V { return B(respBytes(fr, tid, p)) }))
-				}
-			}
-		}
-	}
 	for fc := 0; fc < 256; fc++ {
 		for _, code := range []int{0, 1, 2, 3, 4, 11, 255, r.intn(256)} {
 			u := r.u8()
